@@ -91,3 +91,7 @@ pub fn yield_now() {
     // it's safe to use the stack value here
     yield_with(&y);
 }
+
+#[cfg(kani)]
+#[path = "/verif/harness/may/yield_now.rs"]
+mod verif_kani;
